@@ -95,8 +95,9 @@ fn gen_c05(ctx: &GenCtx, i: u64) -> Option<Run> {
         _ => Some(if r.chance(1, 2) { ascii!(r, 1 + r.usize(24)) } else { nonempty_text!(r, 24) }),
     };
     let assertion = if proto.has_assertion() { gen_opt_text(&mut r).map(|f| f.chars().take(10).collect::<String>()) } else { None };
-    let msg = ascii!(r, r.usize(40));
-    let opts = IssueOpts { proto, layer, key, footer: footer.clone(), assertion, now, message: msg.clone(), json_payload: Some(json!({"data": msg})), extra_claims: vec![] };
+    let raw = layer == Layer::Core && r.chance(1, 3);
+    let msg = if raw { ascii!(r, *r.pick(&[0usize, 0, 1, 2, 16])) } else { ascii!(r, r.usize(40)) };
+    let opts = IssueOpts { proto, layer, key, footer: footer.clone(), assertion, now, message: msg.clone(), json_payload: if raw { None } else { Some(json!({"data": msg})) }, extra_claims: vec![] };
     let mut t = issue(&mut rb, &mut r, opts);
     // builder layers: sometimes it is the 2nd or 3rd token of the same builder that travels
     if t.builder.is_some() && r.chance(1, 3) {
@@ -112,8 +113,21 @@ fn gen_c05(ctx: &GenCtx, i: u64) -> Option<Run> {
     if slow {
         vs.truncate(8);
     }
+    // a live parser whose expected footer is changed between parses: F -> other -> "" -> F
+    {
+        let vlayer = if raw { Layer::Core } else { random_layer(&mut r) };
+        let mut spec = plain_spec(&t, vlayer);
+        spec.default_validators = vlayer == Layer::Batteries;
+        let v = rb.verifier(spec);
+        rb.deliver(t.msg, v, at);
+        let seq: Vec<String> = vec![nonempty_text!(r, 6), String::new(), footer.clone().unwrap_or_default(), "zz".into(), String::new()];
+        for f in seq {
+            rb.push(Op::Reconfigure { v, op: VOp::SetFooter(f) });
+            rb.deliver(t.msg, v, at);
+        }
+    }
     for (n, fv) in vs.into_iter().enumerate() {
-        let vlayer = ALL_LAYERS[(n + i as usize) % 3];
+        let vlayer = if raw { Layer::Core } else { ALL_LAYERS[(n + i as usize) % 3] };
         let mut spec = plain_spec(&t, vlayer);
         spec.footer = fv.clone();
         spec.default_validators = vlayer == Layer::Batteries;
@@ -125,7 +139,7 @@ fn gen_c05(ctx: &GenCtx, i: u64) -> Option<Run> {
         rb.push(Op::Deliver { msg: t.msg, to: v, now_ns: Ns(at), ticks: vec![], twin: false, control: Some(Box::new(control)), key: None });
     }
     // footer edits in transit, verifier expects F
-    let vlayer = random_layer(&mut r);
+    let vlayer = if raw { Layer::Core } else { random_layer(&mut r) };
     let mut spec = plain_spec(&t, vlayer);
     spec.default_validators = vlayer == Layer::Batteries;
     let v = rb.verifier(spec);
@@ -154,6 +168,8 @@ fn gen_c05(ctx: &GenCtx, i: u64) -> Option<Run> {
     }
     for s in [Seg::Footer] {
         outs.push(rb.fault(t.msg, FaultKind::Pad { seg: s.clone(), n: 1 }, None));
+        outs.push(rb.fault(t.msg, FaultKind::Pad { seg: s.clone(), n: 2 }, None));
+        outs.push(rb.fault(t.msg, FaultKind::AlphabetSwap { seg: s.clone() }, None));
         for bits in [1u8, 2, 3, 8] {
             outs.push(rb.fault(t.msg, FaultKind::TrailingBits { seg: s.clone(), bits }, None));
         }
@@ -191,8 +207,9 @@ fn gen_c06(ctx: &GenCtx, i: u64) -> Option<Run> {
                 _ => Some(if r.chance(1, 2) { ascii!(r, 1 + r.usize(24)) } else { nonempty_text!(r, 24) }),
             };
             let footer = gen_opt_text(&mut r).map(|f| f.chars().take(10).collect::<String>());
-            let msg = ascii!(r, r.usize(40));
-            let opts = IssueOpts { proto, layer, key, footer: footer.clone(), assertion: assertion.clone(), now, message: msg.clone(), json_payload: Some(json!({"data": msg})), extra_claims: vec![] };
+            let raw = layer == Layer::Core && r.chance(1, 3);
+            let msg = if raw { ascii!(r, *r.pick(&[0usize, 0, 1, 2, 16])) } else { ascii!(r, r.usize(40)) };
+            let opts = IssueOpts { proto, layer, key, footer: footer.clone(), assertion: assertion.clone(), now, message: msg.clone(), json_payload: if raw { None } else { Some(json!({"data": msg})) }, extra_claims: vec![] };
             let mut t = issue(&mut rb, &mut r, opts);
             if t.builder.is_some() && r.chance(1, 3) {
                 for _ in 0..1 + r.usize(2) {
@@ -206,8 +223,21 @@ fn gen_c06(ctx: &GenCtx, i: u64) -> Option<Run> {
             if slow {
                 vs.truncate(8);
             }
+            // a live parser whose asserted value is changed between parses: A -> other -> "" -> A
+            {
+                let vlayer = if raw { Layer::Core } else { random_layer(&mut r) };
+                let mut spec = plain_spec(&t, vlayer);
+                spec.default_validators = vlayer == Layer::Batteries;
+                let v = rb.verifier(spec);
+                rb.deliver(t.msg, v, at);
+                let seq: Vec<String> = vec![nonempty_text!(r, 6), String::new(), assertion.clone().unwrap_or_default(), "zz".into(), String::new()];
+                for a in seq {
+                    rb.push(Op::Reconfigure { v, op: VOp::SetAssertion(a) });
+                    rb.deliver(t.msg, v, at);
+                }
+            }
             for (n, av) in vs.into_iter().enumerate() {
-                let vlayer = ALL_LAYERS[(n + i as usize) % 3];
+                let vlayer = if raw { Layer::Core } else { ALL_LAYERS[(n + i as usize) % 3] };
                 let mut spec = plain_spec(&t, vlayer);
                 spec.assertion = av;
                 spec.default_validators = vlayer == Layer::Batteries;
@@ -222,7 +252,7 @@ fn gen_c06(ctx: &GenCtx, i: u64) -> Option<Run> {
             for cut in 0..=chars.len().min(if slow { 4 } else { 24 }) {
                 let f2: String = chars[..cut].iter().collect();
                 let a2: String = chars[cut..].iter().collect();
-                let vlayer = ALL_LAYERS[(cut + i as usize) % 3];
+                let vlayer = if raw { Layer::Core } else { ALL_LAYERS[(cut + i as usize) % 3] };
                 let mut spec = plain_spec(&t, vlayer);
                 spec.footer = if f2.is_empty() && r.chance(1, 2) { None } else { Some(f2) };
                 spec.assertion = if a2.is_empty() && r.chance(1, 2) { None } else { Some(a2) };
